@@ -29,7 +29,8 @@ ASSUMPTIONS = [
     'DATEDIF M/Y = complete months/years by calendar arithmetic',
 ]
 FLOORS = {'serial_field_calls': 100000, 'date_constructor_calls': 2000,
-          'month_move_calls': 2000, 'pair_calls': 2000}
+          'month_move_calls': 2000, 'pair_calls': 2000,
+          'early_1900_cases': 100}
 ANCHOR_FUNCS = {
     'xlcalculator/xlfunctions/date.py': ['DATE', 'YEAR', 'MONTH', 'DAY',
                                          'WEEKDAY', 'ISOWEEKNUM', 'EDATE',
@@ -327,6 +328,54 @@ def run(ctx):
             R.check('EOMONTH', (n, k), serial_of(eom), 'month_move_calls',
                     ('EOMONTH', d.day >= 29, k < 0, moved.month == 2,
                      is_leap(moved.year)))
+
+    # ---- January and February 1900 (serials 1..59, next to the serial 60 that
+    # no calendar date has): differences of dates are differences of their
+    # serials; YEARFRAC accepts 1900-01-01 -------------------------------------
+    if ctx.shard in (0, 1) or thorough:
+        low = [1, 2, 31, 32, 58, 59]
+        high = [61, 62, 100, 366, 43831]
+        forms_low, wants_low = [], []
+        for a in low + high[:2]:
+            for b in low + high:
+                R.check('DAYS', (b, a), b - a, 'pair_calls',
+                        ('DAYS-1900', a < 60, b < 60))
+                ctx.event('early_1900_cases')
+                if a <= 59 and b >= 61:
+                    da, db = date_of(a), date_of(b)
+                    forms_low.append(
+                        f'=DATE({db.year},{db.month},{db.day})-'
+                        f'DATE({da.year},{da.month},{da.day})')
+                    wants_low.append(float(b - a))
+        outs_low = subject.eval_batch(forms_low)
+        for text, want, got in zip(forms_low, wants_low, outs_low):
+            ctx.event('formula_calls')
+            ctx.event('early_1900_cases')
+            ctx.case(('date-subtraction-1900', text[:24]))
+            if got != ('value', ('num', want)):
+                ctx.fail(f'{text} observed {got}, reference {want} (the '
+                         f'difference of the serials)',
+                         {'formula': text, 'observed': got,
+                          'reference': want}, monitor='calendar-reference',
+                         group='subtraction-1900')
+        for a in (1, 2):
+            for b in (1, 2, 61, 366, 43831):
+                for basis in (0, 1, 2, 3, 4):
+                    got = monitors.call_outcome(R.F['YEARFRAC'], a, b, basis)
+                    ctx.event('pair_calls')
+                    ctx.event('early_1900_cases')
+                    ctx.case(('YEARFRAC-1900', a, b == a, basis))
+                    ok = got[0] == 'value' and got[1][0] == 'num' and (
+                        got[1][1] == 0 if a == b else got[1][1] > 0)
+                    if not ok:
+                        ctx.fail(f'YEARFRAC({a}, {b}, {basis}) observed '
+                                 f'{got}: serial {a} is a date '
+                                 f'(1900-01-0{a}), a number '
+                                 f'{"0" if a == b else "> 0"} is expected',
+                                 {'function': 'YEARFRAC',
+                                  'args': [a, b, basis], 'observed': got},
+                                 monitor='calendar-reference',
+                                 group='YEARFRAC-1900')
 
     # ---- ordered pairs: DAYS, subtraction, DATEDIF, YEARFRAC ------------------------
     pool = sorted(set(
